@@ -29,7 +29,7 @@ func checkC10(c *vx.Ctx) {
 
 // crashEnum enumerates crash points; report lists the properties whose violations the calling check reports.
 func crashEnum(c *vx.Ctx, report []string) {
-	ruleText := "base histories = the benign scripts of the mirror harness (40 events) and of the engine harness (54 events) plus selected single deviations (round change, future vote, garbage vote, competing proposal, stalled consumers); for every base history and every store write index k of every event, the store wrappers freeze after write k (every later write is dropped and fails), the node is stopped, restarted on the same stores, the interrupted message is re-delivered and the history continues; thorough adds a second crash inside the re-delivery; oracles: restart succeeds, positions not behind the durable ones, committed headers kept, persisted votes and proposals present again and verifying, finalizations neither refused nor overwritten, final committed chain / voting position / vote sets equal to the crash-free run; a case = (history, event, write index); non-trivial = the crash really interrupted an event (the store froze), distinct by (history, crash point)"
+	ruleText := "base histories = the benign scripts of the mirror harness (40 events) and of the engine harness (54 events) plus selected single deviations (round change, future vote, garbage vote, competing proposal, stalled consumers); for every base history and every store write index k of every event, the store wrappers freeze after write k (every later write is dropped and fails), the node is stopped, restarted on the same stores, the interrupted message is re-delivered and the history continues; thorough adds a second crash inside the re-delivery; every mirror base history is also stopped cleanly and restarted at every quiescent point; oracles: votes held before the stop and persisted earlier are present again, restart succeeds, positions not behind the durable ones, committed headers kept, persisted votes and proposals present again and verifying, finalizations neither refused nor overwritten, final committed chain / voting position / vote sets equal to the crash-free run; a case = (history, event, write index); non-trivial = the crash really interrupted an event (the store froze), distinct by (history, crash point)"
 	if c.Rule == "" {
 		c.Rule = ruleText
 	} else {
